@@ -32,6 +32,11 @@ def lone(vs):
     return []
 
 
+def path3_lists(vs):
+    # the same two edges as path3, written as lists
+    return [[vs[0], vs[1]], [vs[1], vs[2]]]
+
+
 def star3(vs):
     # centre = first orbit (1 vertex), leaves = second orbit (2 vertices)
     return [(vs[0], vs[1]), (vs[0], vs[2])]
@@ -51,6 +56,8 @@ def fast_configs(tier):
         ("clique2+cycle4", [2, 4], [clique_motif, cycle_motif], ["2-clique", "4-cycle"]),
         ("path3-callback", [3], [path3], ["path"]),
         ("clique3+clique2", [3, 2], [clique_motif, clique_motif], ["3-clique", "2-clique"]),
+        # a topology of motif size 1 (its callback returns no edges but must still be applied once per stub)
+        ("clique2+lone1", [2, 1], [clique_motif, lone], ["2-clique", "lone"]),
     ]
     if tier == "thorough":
         cfgs += [
@@ -69,6 +76,7 @@ def custom_configs(tier):
         ("one-edge-list", [2], [single_edge_list], [lambda: ["e"]], [[0]]),
         ("bare-edge-tuple-name", [2], [bare_edge], [lambda: ("2-clique",)], [[0]]),
         ("two-edge-path", [3], [path3], [lambda: ("p01", "p12")], [[0]]),
+        ("two-edge-path-as-lists", [3], [path3_lists], [lambda: ["p01", "p12"]], [[0]]),
         ("triangle", [3], [tri_tuple], [lambda: ("3-clique", "3-clique", "3-clique")], [[0]]),
         ("bare-edge+triangle", [2, 3], [bare_edge, tri_tuple],
          [lambda: "2-clique", lambda: ("3-clique",) * 3], [[0], [1]]),
@@ -96,8 +104,10 @@ def custom_configs(tier):
 # ------------------------------------------------------------------ boxes
 BOX = {
     # per number of topologies/orbit columns t: (max N, max entry)
-    "quick": {"shape": {1: (4, 2), 2: (4, 2), 3: (4, 1)}, "leaf_cap": 700},
-    "thorough": {"shape": {1: (5, 3), 2: (4, 2), 3: (4, 1)}, "extra": {2: (5, 1), 3: (3, 2)}, "leaf_cap": 5000},
+    # "extra" boxes add few vertices with higher degrees (more motif instances than vertices)
+    "quick": {"shape": {1: (4, 2), 2: (4, 2), 3: (4, 1)}, "extra": {1: (3, 4), 2: (2, 3)}, "leaf_cap": 500},
+    "thorough": {"shape": {1: (5, 3), 2: (4, 2), 3: (4, 1)}, "extra": {1: (3, 5), 2: (3, 4), 3: (3, 2)},
+                 "leaf_cap": 5000},
 }
 
 
